@@ -44,6 +44,8 @@ def units(tier, seed):
             out.append({"kind": "family", "order": o, "block": b, "nblocks": nbb, "name": f"fmarks/order{o}#{b}/{nbb}"})
     for sid in ["basic", "list", "struct", "topmarks", "attrs"]:
         out.append({"kind": "zoo", "sid": sid, "name": f"zoo/{sid}"})
+    # marks of one type whose list- / dict-valued attribute values are prefixes / key-subsets of one another
+    out.append({"kind": "zoo", "sid": "attrs", "structured": True, "name": "zoo/attrs/structured-values"})
     return out
 
 
@@ -235,6 +237,12 @@ def run_unit(u):
         res.scopes.append({"unit": u["name"], "configurations": n, "completed": True})
     else:
         c = adapters.ctx(u["sid"])
+        if u.get("structured"):
+            vals = [[], ["t"], {"k": 1}, {"k": 1, "j": 2}]
+            explore(c, [{"type": "note", "attrs": {"id": "u", "tags": v}} for v in vals], res)
+            res.scopes.append({"unit": u["name"], "configurations": 1, "completed": True})
+            res.evaluations = res.transitions
+            return res
         explore(c, zoo_marks(c), res)
         res.sample({"schema": u["sid"], "marks": zoo_marks(c)[:2]})
         res.scopes.append({"unit": u["name"], "configurations": 1, "completed": True})
